@@ -46,6 +46,8 @@ Proof.
   intros Hs. revert t. induction e; simpl; intros t0 H; try assumption.
   - destruct (existsb (Nat.eqb i) sc) eqn:E; [|discriminate].
     apply existsb_eqb_In in E. apply (Hs _ _ E) in H as E'. apply existsb_eqb_In in E'. rewrite E'. assumption.
+  - destruct (existsb (Nat.eqb i) sc) eqn:E; [|discriminate].
+    apply existsb_eqb_In in E. apply (Hs _ _ E) in H as E'. apply existsb_eqb_In in E'. rewrite E'. assumption.
   - eauto.
   - eauto.
   - destruct (type_of tys sc e) as [[[]|]|]; try discriminate; rewrite (IHe _ eq_refl); assumption.
@@ -165,7 +167,7 @@ Section Steps.
   Proof. reflexivity. Qed.
   Lemma exec_lget n v st ls : nth_error ls n = Some v -> exec_i (LGet n) st ls = ONorm (v :: st) ls.
   Proof. intros H. simpl. rewrite H. reflexivity. Qed.
-  Lemma exec_return v st ls : exec_i Return (v :: st) ls = ORet v.
+  Lemma exec_return v st ls : exec_i Return (v :: st) ls = ORet v ls.
   Proof. reflexivity. Qed.
 
   (* const 0; ne *)
@@ -682,12 +684,12 @@ Section Expr.
 
   Lemma cexpr_correct sc :
     forall e hint t,
-      type_of tys sc e = Some t ->
+      type_of tys sc e = Some t -> pure_expr e = true ->
       hint_ok tys hint e = true -> float_mod_free tys e = true ->
       exists code, cexpr tys hint e = Some (code, t) /\
                    forall r ls, sim sc r ls -> dflags fo tys r e = [] -> esim t code (eval r e) ls.
   Proof.
-    induction e; intros hint t0 Ht Hh Hm; simpl in Ht, Hh, Hm.
+    induction e; intros hint t0 Ht Hp Hh Hm; simpl in Ht, Hp, Hh, Hm.
     - (* literal *)
       destruct ((0 <=? z) && (z <=? imax t)) eqn:R; [|discriminate]. injection Ht as <-.
       apply andb_true_iff in R. destruct R as [R0 R1]. apply Z.leb_le in R0, R1.
@@ -711,11 +713,13 @@ Section Expr.
       eexists. split; [reflexivity|]. intros r ls [Hlen Hsim] _ st. simpl.
       destruct (Hsim _ _ Hi Hn) as [V L]. split; [assumption|].
       rewrite exec_l_cons, (exec_lget fo _ _ _ _ L), exec_l_nil. reflexivity.
+    - (* stateful variable: outside the proved fragment *)
+      discriminate.
     - (* parentheses *)
-      destruct (IHe hint t0 Ht Hh Hm) as (c & Ec & Sc).
+      destruct (IHe hint t0 Ht Hp Hh Hm) as (c & Ec & Sc).
       exists c. split; [assumption|]. exact Sc.
     - (* unary minus *)
-      destruct (IHe hint t0 Ht Hh Hm) as (c & Ec & Sc).
+      destruct (IHe hint t0 Ht Hp Hh Hm) as (c & Ec & Sc).
       pose proof (ety_of _ _ _ Ht) as Et.
       simpl. rewrite Ec.
       assert (N : forall r ls, sim sc r ls -> dflags fo tys r (ENeg e) = [] ->
@@ -730,7 +734,7 @@ Section Expr.
       destruct t0; eexists; (split; [reflexivity|exact N]).
     - (* not *)
       destruct (type_of tys sc e) as [[[]|]|] eqn:Te; try discriminate. injection Ht as <-.
-      destruct (IHe hint _ eq_refl Hh Hm) as (c & Ec & Sc).
+      destruct (IHe hint _ eq_refl Hp Hh Hm) as (c & Ec & Sc).
       simpl. rewrite Ec. eexists. split; [reflexivity|]. intros r ls Hs Hd. apply not_case. apply (Sc r ls Hs). exact Hd.
     - (* power *)
       destruct (type_of tys sc e1) as [ta|] eqn:Ta; [|discriminate].
